@@ -9,7 +9,7 @@ META = {
              '(record length class, size class, outcome); non-trivial when a record body is < 12 bytes, the record '
              'length is < 32 or >= 16382, a name has >= 128 characters, or a body exceeds 3 capacities'),
     'required_obs': {'quick': ['body-lt-12', 'mx-20..30', 'mx-32', 'mx-16384', 'name-255', 'body-gt-3cap',
-                               'write-ok', 'odd-body', 'row-ge-64KiB', 'row-ge-1MiB', 'file-decoded', 'name-255', 'record-count-grid', 'record-count-grid-multi-lf', 'declared-record-count-checked']},
+                               'write-ok', 'odd-body', 'row-ge-64KiB', 'row-ge-1MiB', 'file-decoded', 'name-255', 'record-count-grid', 'record-count-grid-multi-lf', 'declared-record-count-checked', 'float-chunk-size-flushed-mid-write', 'file-of-several-chunks']},
     'exhaustive_windows': {
         'quick': ['every even record length 20..256 and a stride sample above, with a fixed small specification'],
         'thorough': ['every even record length 20..16384 (8183 values) with a fixed small specification',
@@ -45,6 +45,12 @@ def cases(tier, seed):
             yield {'stratum': 'nf-short', 'index': i, 'kind': 'nf', 'mx': mx, 'name_len': nl,
                    'payload_lens': list(range(0, 31))}
             i += 1
+    # the size of the FILE relative to the output chunk (less than one chunk ... many chunks), the chunk size given as an
+    # integer and as a float of integral value: whether a specification can be written must not depend on how many times
+    # the buffer is flushed
+    for mx in ([64, 8192] if tier == 'quick' else [20, 64, 256, 8192, 16384]):
+        yield {'stratum': 'file-size-vs-output-chunk', 'index': i, 'kind': 'chunk-forms', 'mx': mx}
+        i += 1
     # long names
     for nl in ([1, 2, 100, 127, 128, 129, 200, 254, 255] if tier == 'quick' else list(range(1, 256, 1))):
         yield {'stratum': 'name-length', 'index': i, 'kind': 'names', 'name_len': nl}
@@ -173,6 +179,23 @@ def run_case(case):
             if (nl + 3 + pl) % 2:
                 bump('odd-body')
             judge(run, f'nf:{mx}:{nl}:{pl}', f'no-format payload of {pl} bytes under a {nl}-character name, record length {mx}')
+    elif k == 'chunk-forms':
+        mx = case['mx']
+        for ocs in (max(mx, 1024), float(max(mx, 1024)), max(mx, 4096), float(max(mx, 4096)), float(mx), 1e5):
+            for pl in (10, int(ocs) - 600, int(ocs) - 100, int(ocs) + 10, 3 * int(ocs) + 5):
+                if pl < 0:
+                    continue
+                sp = small_spec(mx, rows=3)
+                kk = len(sp['ops'])
+                sp['ops'].append(gen.nf_op('PACKET'))
+                sp['ops'].append(gen.nf_data_op(kk, bytes((i * 3 + 7) & 0xFF for i in range(pl))))
+                sp['write']['output_chunk_size'] = ocs
+                run = harness.execute(sp, want_taps=True)
+                if isinstance(ocs, float) and run.data is not None and len(run.data) > ocs:
+                    bump('float-chunk-size-flushed-mid-write')
+                if run.data is not None and len(run.data) > 3 * ocs:
+                    bump('file-of-several-chunks')
+                judge(run, f'chunk:{mx}:{ocs!r}:{pl}', f'file with a {pl}-byte packet, record length {mx}, output_chunk_size={ocs!r}')
     elif k == 'names':
         nl = case['name_len']
         for which in ('channel', 'frame', 'origin', 'set_name'):
